@@ -129,6 +129,40 @@ def interleaving_pass(ctx, n, rng):
                       {"n": n, "what": "interleaving"})
 
 
+def dtype_pass(ctx, n, rng):
+    """compress_matrix on symmetric matrices held in other element types: the answer is still the row-major upper triangle,
+    value for value; for the integer and float types the round trip gives the matrix back"""
+    from fast_ticc import matrix_compression as mc
+    iu = np.triu_indices(n)
+    for dt in (np.bool_, np.int8, np.uint8, np.int16, np.int64, np.float16, np.float32):
+        if dt is np.bool_:
+            A = rng.integers(0, 2, size=(n, n)).astype(bool)
+            M = A | A.T
+        elif np.issubdtype(dt, np.integer):
+            info = np.iinfo(dt)
+            A = rng.integers(info.min // 2 + 1, info.max // 2, size=(n, n), dtype=np.int64)
+            M = np.triu(A) + np.triu(A, 1).T
+            M[0, 0] = info.max                     # an extreme value on the diagonal
+            M = M.astype(dt)
+        else:
+            A = rng.integers(-200, 200, size=(n, n)).astype(np.float64) / 8.0
+            M = (np.triu(A) + np.triu(A, 1).T).astype(dt)
+        want = M[iu]
+        got = mc.compress_matrix(M)
+        ctx.count("dtype-compress")
+        if got.shape != want.shape or not np.array_equal(np.asarray(got, dtype=np.float64), np.asarray(want, dtype=np.float64)):
+            k = int(np.argmax(np.asarray(got, dtype=np.float64) != np.asarray(want, dtype=np.float64))) if got.shape == want.shape else -1
+            ctx.violation("monitor", "compress_matrix of a symmetric %d x %d %s matrix is not its row-major upper triangle (entry %d: %r, expected %r)" % (
+                n, n, np.dtype(dt).name, k, got[k].item() if k >= 0 else None, want[k].item() if k >= 0 else None),
+                {"n": n, "what": "compress-dtype", "dtype": np.dtype(dt).name})
+            continue
+        if dt is not np.bool_:
+            back = mc.reinflate_matrix(got)
+            if back.shape != M.shape or not np.array_equal(np.asarray(back, dtype=np.float64), np.asarray(M, dtype=np.float64)):
+                ctx.violation("monitor", "reinflate(compress(M)) != M for a symmetric %d x %d %s matrix" % (n, n, np.dtype(dt).name),
+                              {"n": n, "what": "roundtrip-dtype", "dtype": np.dtype(dt).name})
+
+
 def definition_pass(ctx, n):
     """the statement itself on matrices with pairwise distinct entries, for one size n (independent of the model):
     compress = row-major upper triangle, reinflate = the symmetric matrix with that upper triangle, both round trips"""
@@ -204,6 +238,9 @@ def run(ctx):
                     with ctx.guard("compress / reinflate", {"n": n, "phase": "definition pass"}):
                         definition_pass(ctx, n)
                     ctx.count("n-definition")
+                for n in (1, 2, 5, 17, 64):
+                    with ctx.guard("compress / reinflate", {"n": n, "phase": "dtype pass"}):
+                        dtype_pass(ctx, n, rng)
                 for n in (1, 2, 3, 7, 40, 129, 150):
                     with ctx.guard("compress / reinflate", {"n": n, "phase": "interleaving pass"}):
                         interleaving_pass(ctx, n, rng)
